@@ -66,18 +66,6 @@ func execMultiplicativeExprDivide(context *exprContext, expr *grammar.Grammar) e
 		return err
 	}
 
-	if right == 0 {
-		if left == 0 {
-			context.result = Number(math.NaN())
-		} else if left > 0 {
-			context.result = Number(math.Inf(1))
-		} else {
-			context.result = Number(math.Inf(-1))
-		}
-
-		return nil
-	}
-
 	context.result = Number(left / right)
 	return nil
 }
